@@ -99,7 +99,9 @@ def couple (p : PProxy) (c : CConn) : PProxy × CConn :=
   let downClosed := (down.map (·.l.destClosed)).getD false
   let c2 := if upClosed && !c1.server.ended then { c1 with server := { c1.server with ended := true, rst := c1.linger0 } } else c1
   let c3 := if downClosed && !c2.client.ended then { c2 with client := { c2.client with ended := true, rst := c2.linger0 } } else c2
-  let cut := fun (l : Link) => if l.srcEOF then l else
+  -- (a source that has seen its peer's close but still has unread bytes queued — the chain is
+  -- backed up — is cut like any other: how many of them `io.Copy` still reads is a race)
+  let cut := fun (l : Link) => if l.srcEOF && l.srcQ.isEmpty then l else
     { l with srcEOF := true, srcQ := [], srcCut := true, cutHi := l.sent.length + (l.srcQ.map List.length).sum }
   let coll1 := if upClosed then updLink p.coll (downName c.name) cut else p.coll
   let coll2 := if downClosed then updLink coll1 (upName c.name) cut else coll1
@@ -201,7 +203,12 @@ def PProxy.abort (p : PProxy) (cname : String) (client : Bool) : PProxy :=
   let coll1 := updLink p.coll rd (fun l => if l.srcEOF then l else
     { l with srcEOF := true, srcQ := [], srcCut := l.srcCut || !l.srcQ.isEmpty,
              cutHi := max l.cutHi (l.sent.length + (l.srcQ.map List.length).sum) })
-  let coll2 := updLink coll1 wr (fun l => { l with sinkFail := true })
+  -- (the link writing to that socket fails and drains; meanwhile the other link ends and
+  -- closes the socket this one reads from: how much of a backlog it still reads is timing)
+  let failing := fun (l : Link) =>
+    { l with sinkFail := true, srcCut := l.srcCut || !l.srcQ.isEmpty,
+             cutHi := max l.cutHi (l.sent.length + (l.srcQ.map List.length).sum) }
+  let coll2 := updLink coll1 wr failing
   let conns := p.conns.map fun c =>
     if c.name != cname then c
     else if client then { c with client := { c.client with ended := true } }
